@@ -223,6 +223,28 @@ def r3_lock_gate(ctx):
     r.check(rr and sig(rr[0][2]) == "HashMap::get($1.stakes, $2)", "get_stake", "get_stake = stakes.get(txhash)", "get_stake returns %s" % (sig(rr[0][2]) if rr else "?"))
 
 
+def r3_new_stakes_flow(ctx):
+    """the stakes registered by the batch itself reach the lock gate: read off the call site, whatever the parameter list of check_tx_validity is"""
+    r = ctx.rule("R3f", "apply_tx_batch_impl hands the stakes made in this batch (load_stake_info(this, txx)?) to check_tx_validity: a coin staked in the batch cannot be spent in it", positional=False)
+    impl = ctx.body("melstf::state::applytx::apply_tx_batch_impl", r)
+    sites = []
+    for b in [impl] + [n for c in ctx.prog.closures_of(impl) for n in ctx.prog.all_nested(c)]:
+        caps = q.closure_captures(impl, b.nname) if b is not impl else {}
+        for bi, e in q.call_exprs(b, "check_tx_validity"):
+            args = [sig(q.subst(a, {}, caps)) if caps else sig(a) for a in e[2]]
+            sites.append((b, bi, args))
+    if not sites:
+        r.undecided("new-stakes/flow", "no direct call of check_tx_validity from apply_tx_batch_impl or its closures")
+        return
+    for b, bi, args in sites:
+        if any("load_stake_info(" in a for a in args):
+            r.ok("new-stakes/flow", "validation receives load_stake_info(this, txx)?")
+        elif any("add_stake" in a or "StakeSet" in a or "stakes" in a.replace("$1.stakes", "") for a in args) or q.calls_to(ctx.prog.body(CTV), "load_stake_info"):
+            r.undecided("new-stakes/flow", "the batch's stakes may reach validation another way: arguments %s" % args, b.where(bi))
+        else:
+            r.violation("new-stakes/flow", "check_tx_validity is called with %s: nothing derived from load_stake_info — a coin staked by one transaction of the batch can be spent by another (the stake is registered, its SYM is gone)" % args, b.where(bi))
+
+
 def r4_expiry(ctx):
     r = ctx.rule("R4", "next_unsealed: stakes.unlock_old((new.height / STAKE_EPOCH).0) after height += 1, on every path")
     body = ctx.body("melstf::state::SealedState::next_unsealed", r)
@@ -395,4 +417,4 @@ def shared(ctx):
     core.import_rules(ctx, [c07.r6_stake_commitment, c07.r1_header_map], "X07")
 
 
-RULES = [r1_consistency, r2_registration, r3_lock_gate, r4_expiry, r5_epoch_filters, r6_stakes_after_success, shared]
+RULES = [r1_consistency, r2_registration, r3_lock_gate, r3_new_stakes_flow, r4_expiry, r5_epoch_filters, r6_stakes_after_success, shared]
